@@ -172,6 +172,15 @@ def linear_population(rng, thorough=False):
             if min(sp.shape) >= 3:   # the inverse of a shrinking operator pads; pad modes need >= 2 remaining points
                 yield 'ResizingOperator/shrink/%s/%s' % (pad, n), lambda sp=sp, pad=pad: odl.ResizingOperator(sp, ran_shp=tuple(k - 1 for k in sp.shape), pad_mode=pad)
         yield 'ResizingOperator/affine/' + n, lambda sp=sp: odl.ResizingOperator(sp, ran_shp=tuple(k + 2 for k in sp.shape), pad_const=1.0)
+        for sp2, n2 in ([(odl.uniform_discr([0, 0], [1, 3], (4, 6)), 'd46'), (odl.uniform_discr([0, 0], [1, 3], (4, 6), dtype=complex), 'd46c')] if n == 'd4' else []):
+            # one axis grows while another shrinks (decisions taken from total sizes are wrong per axis): range smaller / equal / larger in total
+            for pad in ['constant', 'symmetric', 'periodic', 'order0', 'order1']:
+                for tag, dshape in (('total-smaller', (1, -2)), ('total-larger', (3, -1)), ('swap', None)):
+                    rs = tuple(reversed(sp2.shape)) if dshape is None else tuple(k + d for k, d in zip(sp2.shape, dshape + (0,) * sp2.ndim))
+                    if min(rs) < 2 or rs == sp2.shape:
+                        continue
+                    yield 'ResizingOperator/mixed-%s/%s/%s' % (tag, pad, n2), lambda sp2=sp2, pad=pad, rs=rs: odl.ResizingOperator(sp2, ran_shp=rs, pad_mode=pad)
+                    yield 'ResizingOperator.adjoint/mixed-%s/%s/%s' % (tag, pad, n2), lambda sp2=sp2, pad=pad, rs=rs: odl.ResizingOperator(sp2, ran_shp=rs, pad_mode=pad).adjoint
         yield 'ResizingOperator.adjoint/' + n, lambda sp=sp: odl.ResizingOperator(sp, ran_shp=tuple(k + 2 for k in sp.shape), pad_mode='order0').adjoint
     for shape in [(4,), (5,), (2, 3), (3, 4)]:
         for dt in ('float64', 'complex128'):
